@@ -78,6 +78,7 @@ type Exec struct {
 	siteOrd map[ssa.Instruction]int
 	seenSites map[string]bool
 	entry0 *State
+	acquiredObjs map[string]bool // objects whose monitor this activation acquired itself (by term)
 	preEntry *State
 }
 
